@@ -230,6 +230,8 @@ KEYWORDS = ('NULL', 'NOT NULL', 'PRIMARY KEY', 'UNIQUE', 'REFERENCES', 'DEFAULT'
 
 def add_column_schema(w):
     """C01(b): the column clauses of a rebuilt/added column are those Django's own column_sql emits."""
+    from .common import seq_member
+    w.spec_funcs['member'] = seq_member
     w.consts['KEYWORDS'] = KEYWORDS
     w.cls('Remote', {})
     w.cls('PK', {'name': K.Str})
@@ -245,7 +247,7 @@ def add_column_schema(w):
     w.stub('Backend.get_field_type_allows_default', params={'self': K.Ref('Backend'), 'field': FIELD}, returns=K.Bool,
            pure=True)
     w.contract(
-        'BaseEvolutionOperations.build_column_schema', module=COMMON, serves=['C01'],
+        'BaseEvolutionOperations.build_column_schema', module=COMMON, serves=['C01', 'C11'],
         params={'self': K.Ref('Backend'), 'model': K.Ref('Model'), 'field': FIELD, 'initial': K.Opt(INITV),
                 'skip_null_constraint': K.Bool, 'skip_primary_or_unique_constraint': K.Bool, 'skip_references': K.Bool},
         defaults={'initial': None, 'skip_null_constraint': False, 'skip_primary_or_unique_constraint': False,
@@ -262,6 +264,12 @@ def add_column_schema(w):
             "        ('UNIQUE' in result['definition']) == (field.unique and not field.primary_key))",
             # foreign-key target clause present iff the field is a relation
             "('REFERENCES' in result['definition']) == (get_remote_field(field) is not None and not skip_references)",
+            # ... and it names the related model's table and its primary key field AS THEY ARE NOW
+            "implies(get_remote_field(field) is not None and not skip_references, "
+            "        member(result['definition'], '(%s)' % self.connection.ops.quote_name("
+            "               get_remote_field_model(some(get_remote_field(field)))._meta.pk.name)) and "
+            "        member(result['definition'], self.connection.ops.quote_name("
+            "               get_remote_field_model(some(get_remote_field(field)))._meta.db_table)))",
             # a DEFAULT clause binds exactly the given initial value
             "('DEFAULT' in result['definition']) == (len(result['definition_sql_params']) == 1)",
             "implies(len(result['definition_sql_params']) == 1, initial is not None and "
